@@ -261,6 +261,15 @@ func (r *Run) builtin(name string, args []Value, argv []ssa.Value, rtype types.T
 		}
 		return args[0]
 	case "recover":
+		// effective only when called directly by a deferred function while its parent panics
+		t := r.cur
+		if t != nil && t.panic != nil && !t.panic.recovered && len(t.frames) > 0 && t.top().isDefer {
+			t.panic.recovered = true
+			if iv, ok := t.panic.val.(Iface); ok {
+				return iv
+			}
+			return Iface{typ: types.Typ[types.String], val: StrVal{t.panic.msg}}
+		}
 		return Iface{}
 	case "min", "max":
 		a, b := args[0].(*Term), args[1].(*Term)
